@@ -16,7 +16,7 @@ def _as_alt(x):
     return int(x) if float(x).is_integer() else x
 
 
-def build(sh, normalize_kv=None, span_func=None, cls=None, evaluator=None, share_kv=False, alt_repr=False, edit_back=False, **extra):
+def build(sh, normalize_kv=None, span_func=None, cls=None, evaluator=None, share_kv=False, alt_repr=False, edit_back=False, by_setters=False, **extra):
     """spec shape (JSON form) -> geomdl object.  Raw (non-[0,1]) knot vectors are kept raw unless normalize_kv=True.
     share_kv: directions with equal knot vectors are given the very same list object (as a caller writing
     ``s.knotvector_u = kv; s.knotvector_v = kv`` does)."""
@@ -62,6 +62,14 @@ def build(sh, normalize_kv=None, span_func=None, cls=None, evaluator=None, share
         o.knotvector_u, o.knotvector_v, o.knotvector_w = _U
     if evaluator is not None:
         o.evaluator = evaluator
+    if by_setters and f["rat"]:
+        # and another: some other net with unit weights first, the getters used in between, then the weights, then the unweighted points
+        W_ = [q[-1] for q in f["P"]]
+        Pu_ = [[c / q[-1] for c in q[:-1]] for q in f["P"]]
+        o.set_ctrlpts([[c + 1.0 + i for c in q] + [1.0] for i, q in enumerate(Pu_)], *f["size"])
+        _ = list(o.weights), list(o.ctrlpts)
+        o.weights = list(W_)
+        o.ctrlpts = [list(q) for q in Pu_]
     if edit_back and f["rat"]:
         # another way to reach the same definition: the first weight is wrong at first (doubled), then corrected by the idiom
         # ``w = obj.weights; w[0] = ...; obj.weights = w`` (the list the getter returned is edited and assigned back)
